@@ -412,7 +412,11 @@ func main() {
 	run.Set("evaluations", total.evals)
 	run.Set("distinct_nontrivial", len(total.passed))
 	run.Set("import_history_checks", int(atomic.LoadInt64(&historyChecks)))
+	overN, overFails := overlongChecks()
+	run.Set("sized_literals_with_surplus_digits", overN)
+	run.Add("evaluations", overN)
 	wideN, wideFails := wideChecks()
+	wideFails = append(wideFails, overFails...)
 	run.Set("wide_literals_65_to_128_bits", wideN)
 	run.Add("evaluations", wideN)
 	seenWide := map[string]bool{}
